@@ -103,8 +103,16 @@ def run(ctx):
         ctx.oblige(dyngen.NAME3, True)
     except Exception as ex:
         ctx.oblige(dyngen.NAME3, False, repr(ex))
-    lean_ok = common.lean_obligations(ctx, ["Sympler.Verlet", "Props.C02", "PropsR.C02", "Props.PairLists", "symdrv"], ["Props.C02", "PropsR.C02", "Props.PairLists"],
-                                      THEOREMS + THEOREMS_R + dyngen.PL, MODULES + ["Sympler.Gen.PairListsGen", "Props.PairLists"])
+    TRD = "translator t_disp (IntegratorVelocityVerletDisp::integratePosition: the displacement attribute the rebuild test reads)"
+    try:
+        import t_disp
+        common.write_if_changed(os.path.join(common.LEAN, "Sympler/Gen/DispGen.lean"), t_disp.generate(common.REPO))
+        ctx.oblige(TRD, True)
+    except Exception as ex:
+        ctx.oblige(TRD, False, repr(ex))
+    DT = ["Sympler.Disp.C02_disp_tracks_position", "Sympler.Disp.C02_disp_position_is_vv", "Sympler.Disp.C02_disp_accumulates"]
+    lean_ok = common.lean_obligations(ctx, ["Sympler.Verlet", "Props.C02", "PropsR.C02", "Props.PairLists", "Props.C02Disp", "symdrv"], ["Props.C02", "PropsR.C02", "Props.PairLists", "Props.C02Disp"],
+                                      THEOREMS + THEOREMS_R + dyngen.PL + DT, MODULES + ["Sympler.Gen.PairListsGen", "Props.PairLists", "Sympler.Gen.DispGen", "Props.C02Disp"])
     nA, nB = (50, 12) if not ctx.thorough else (800, 200)
     base = os.path.join(common.WORK, "c02-%d" % os.getpid())
     results = []
